@@ -29,6 +29,21 @@ CLAIMED = {
   "text": "Decides structural necessary conditions of live streaming and stall cut-off: wrappers on the response path are flush-transparent; after a successful relay write every streaming path flushes; a timer armed with the read timeout is awaited in a blocking select; upstream requests carry the caller's context; per-request goroutine sends cannot block for ever; a handler never waits for the proxy goroutine while the pipe it writes into is neither drained nor closed; only Close is deferred on the upstream body. Timing itself is not decided.",
   "note": "Trusted: http.ResponseController's documented lookup of Flush/Unwrap; io.Pipe blocking semantics. Known genuine defect F15 (olla engine only polls its read deadline) is in known_findings.json; F17 (translated stream hang after client cancel) was fixed in /repo commit 8e6b66f.",
  },
+ "C06": {
+  "technique": "static analysis: element/subset provenance of slices over go/ssa (append-in-range under guard, captured cells, callee summaries), aliasing check of the input list, who-may-access check of the round-robin counter, key-agreement check between collector and selector",
+  "text": "Decides that every balancer returns an element of a subset of its input filtered by Status.IsRoutable() (or an error) and never modifies the caller's list; that the round-robin ticket counter is only ever Add-ed/Load-ed atomically with exactly one ticket per selection and the pick is routable[ticket mod n]; and that the connection gauge is written and read under the same Endpoint field. It does not decide tier choice, fairness counts or minimality (arithmetic over runtime values).",
+  "note": "Trusted: sync/atomic linearizability; go/ssa. A statically possible (nil,nil) from the least-connections accumulator is stated as not decided.",
+ },
+ "C07": {
+  "technique": "static analysis: who-may-write / producer-of-constant tables over SSA stores and constant uses, control-dependence of schedule updates on the status comparison, path-count on the breaker-reject path, guard analysis of the recovery callback",
+  "text": "Decides that only a health-check result (or a copy / a non-routable constant) can be written to Endpoint.Status and that routable status constants are produced only by the HTTP-status mapping; that the back-off schedule is reset only under result.Status==healthy and advanced once otherwise; that a breaker-rejected check records nothing on the breaker (so probing resumes); that the recovery callback has one guarded call site after the repository update; and that both back-off implementations share their caps. The numeric schedule and temporal clauses are not decided.",
+  "note": "Trusted: go/ssa; typed string constants fold. Function anchors: health client Check, health checker's result-applying function (found by its stores), retry handler's markEndpointUnhealthy.",
+ },
+ "C08": {
+  "technique": "static analysis: atomic-only access check, must-store on all paths (success clears, failure stamps), exactly-one outcome per admitted attempt by path-count dataflow, writer restriction for the failure counter",
+  "text": "Decides for the three breakers: state is touched only via sync/atomic; a success clears the failure count; the refuse path records nothing; every admitted attempt records exactly one outcome; a failure always refreshes the last-failure time; and where re-opening from half-open relies on the count staying at the threshold, nothing but RecordSuccess lowers it. Thresholds, time-outs and half-open admission counts are state-machine/temporal statements and are not decided.",
+  "note": "Trusted: sync/atomic semantics. Breaker types are listed in a table in checker/c07.go (three named structs); a rename is reported as an unresolved anchor.",
+ },
 }
 _PENDING = "check not built yet in this session; see DESIGN.md §5 for the planned static rules"
 NOT_APPLICABLE = {f"C{i:02d}": _PENDING for i in range(1, 21)}
